@@ -15,10 +15,15 @@ import (
 	"strings"
 )
 
-const schedPath = "github.com/panjf2000/gnet/v2/pkg/verifsched"
+var schedPath = "github.com/panjf2000/gnet/v2/pkg/verifsched"
+var schedName = "verifsched"
 
 func main() {
 	in, out := os.Args[1], os.Args[2]
+	if len(os.Args) > 4 { // target package: import path, its name is the last path element
+		schedPath = os.Args[4]
+		schedName = schedPath[strings.LastIndex(schedPath, "/")+1:]
+	}
 	want := map[string]bool{}
 	for _, w := range strings.Split(os.Args[3], ",") {
 		want[w] = true
@@ -70,8 +75,35 @@ func main() {
 			Body: &ast.BlockStmt{List: []ast.Stmt{&ast.ReturnStmt{Results: []ast.Expr{inner}}}},
 		}
 		msec := ce.Args[2]
-		ce.Fun = &ast.SelectorExpr{X: ast.NewIdent("verifsched"), Sel: ast.NewIdent("EpollWaitHook")}
+		ce.Fun = &ast.SelectorExpr{X: ast.NewIdent(schedName), Sel: ast.NewIdent("EpollWaitHook")}
 		ce.Args = []ast.Expr{msec, lit}
+		rewritten[key]++
+		return false
+	})
+	ast.Inspect(f, func(n ast.Node) bool {
+		ce, ok := n.(*ast.CallExpr)
+		if !ok || len(ce.Args) != 4 {
+			return true
+		}
+		key := ""
+		switch fn := ce.Fun.(type) {
+		case *ast.Ident:
+			key = "hookctl:" + fn.Name
+		case *ast.SelectorExpr:
+			if id, ok := fn.X.(*ast.Ident); ok {
+				key = "hookctl:" + names[id.Name] + "." + fn.Sel.Name
+			}
+		}
+		if key == "" || !want[key] {
+			return true
+		}
+		inner := &ast.CallExpr{Fun: ce.Fun, Args: ce.Args}
+		lit := &ast.FuncLit{
+			Type: &ast.FuncType{Params: &ast.FieldList{}, Results: &ast.FieldList{List: []*ast.Field{{Type: ast.NewIdent("error")}}}},
+			Body: &ast.BlockStmt{List: []ast.Stmt{&ast.ReturnStmt{Results: []ast.Expr{inner}}}},
+		}
+		*ce = ast.CallExpr{Fun: &ast.SelectorExpr{X: ast.NewIdent(schedName), Sel: ast.NewIdent("EpollCtlHook")},
+			Args: []ast.Expr{ce.Args[1], ce.Args[2], lit}}
 		rewritten[key]++
 		return false
 	})
@@ -90,7 +122,7 @@ func main() {
 		}
 		key := base + "." + se.Sel.Name
 		if want[key] {
-			id.Name = "verifsched"
+			id.Name = schedName
 			rewritten[key]++
 		} else {
 			used[id.Name]++
